@@ -375,11 +375,15 @@ where
                 AlnWriter::new(&self.seq, self.k, &self.repeat_coors, self.ambig_mask);
                 self.mapped_names.len()
             ];
+        #[cfg(feature = "verif-hooks")]
+        crate::verif_trace::pool_init("pseudoalignment", threads);
         // The global pool can only be set up once per process: it may already exist when the
         // input was built from sequence files, or when both output formats are written
         let _ = rayon::ThreadPoolBuilder::new()
             .num_threads(threads)
             .build_global();
+        #[cfg(feature = "verif-hooks")]
+        crate::verif_trace::pool_done("pseudoalignment");
         seq_writers
             .par_iter_mut()
             .enumerate()
